@@ -23,6 +23,14 @@ Theorem C18_earth_object : forall a f w,
   Earth___init__ Rops (VObj cEarth [VNone]) (ell a f w) = earth a f w.
 Proof. exact earth_new. Qed.
 
+(* e.set(E) on any Earth object gives exactly the object Earth(E): no state besides the
+   ellipsoid (a method that assigns to self returns the pair (new self, result)) *)
+Theorem C18_set_ellipsoid : forall a0 f0 w0 a f w,
+  Earth_set Rops (earth a0 f0 w0) (ell a f w)
+  = VTuple [Earth___init__ Rops (VObj cEarth [VNone]) (ell a f w); VNone]
+  /\ Earth___init__ Rops (VObj cEarth [VNone]) (ell a f w) = earth a f w.
+Proof. intros. rewrite earth_new. split; [apply earth_set | reflexivity]. Qed.
+
 (* at sea level the observer lies on the meridian ellipse (rho cos phi')^2 + (rho sin phi' a/b)^2 = 1 *)
 Theorem C18_on_ellipse : forall a f w, good_ellipsoid a f -> forall v d hv,
   degval v d -> numval hv 0 ->
@@ -116,6 +124,7 @@ Proof. exact dist_float_all. Qed.
 
 Redirect "C18_builtin.assumptions" Print Assumptions C18_builtin.
 Redirect "C18_earth_object.assumptions" Print Assumptions C18_earth_object.
+Redirect "C18_set_ellipsoid.assumptions" Print Assumptions C18_set_ellipsoid.
 Redirect "C18_on_ellipse.assumptions" Print Assumptions C18_on_ellipse.
 Redirect "C18_height.assumptions" Print Assumptions C18_height.
 Redirect "C18_parallel_radius.assumptions" Print Assumptions C18_parallel_radius.
